@@ -57,6 +57,12 @@ pub struct Call
     pub dest_state : u8,
 }
 
+/// 0: every `read` returns as much as fits; k > 0: file systems created from now on hand out at most k bytes per `read`
+/// (short reads before the end of a file are legal: network and FUSE file systems, interrupted reads)
+pub static DEFAULT_READ_CHUNK : std::sync::atomic::AtomicUsize = std::sync::atomic::AtomicUsize::new(0);
+
+pub fn set_default_read_chunk(k : usize) { DEFAULT_READ_CHUNK.store(k, std::sync::atomic::Ordering::SeqCst); }
+
 pub struct FsState
 {
     pub disk : Disk,
@@ -321,7 +327,7 @@ impl MemSys
                 mutations : 0,
                 snapshots : None,
                 write_chunk : None,
-                read_chunk : None,
+                read_chunk : match DEFAULT_READ_CHUNK.load(std::sync::atomic::Ordering::SeqCst) { 0 => None, k => Some(k) },
                 commands : vec![],
                 in_command : false,
                 exec_snapshots : None,
